@@ -471,6 +471,16 @@ def check_write_image(ctx, tu, f):
                         continue
                     if isinstance(vd, dict) and vd.get('kind') == 'VarDecl' and tu.kids(vd):
                         init = tu.kids(vd)[0]
+                        i0 = tu.strip(init, casts=True)
+                        if i0 is not None and i0.get('kind') == 'CallExpr' and tu.sd(i0).get('q', '').startswith(UTIL) and \
+                                tu.callee_fn(i0) is not None and tu.body(tu.callee_fn(i0)) is not None and \
+                                tu.sd(i0).get('ct', '').rstrip().endswith('*'):
+                            rv = inline_helper(i0, stack)
+                            if rv is None:
+                                raise Undecided('value returned by helper `%s` has no normal form' % tu.show(i0))
+                            img.locals[vd['id']] = rv
+                            img.decl_stack[vd['id']] = list(stack)
+                            continue
                         pv = img.ptr_value(init)
                         if pv is not None:
                             img.locals[vd['id']] = pv
@@ -552,27 +562,36 @@ def check_write_image(ctx, tu, f):
                 return
             if k == 'CallExpr' and tu.sd(n).get('q', '').startswith(UTIL) and tu.callee_fn(n) is not None and \
                     tu.body(tu.callee_fn(n)) is not None and tu.sd(n).get('ct', 'void') == 'void':
-                callee = tu.callee_fn(n)
-                if img.depth > 3:
-                    raise Undecided('helper nesting too deep')
-                saved = dict(img.bind)
-                img.depth += 1
-                try:
-                    for p_, a in zip(callee.get('params', []), tu.call_parts(n)[2]):
-                        v = img.ptr_value(a)
-                        if v is None:
-                            v = img.ev().ev(a)
-                        if v is None:
-                            raise Undecided('argument `%s` of helper %s has no normal form' % (tu.show(a), callee['q']))
-                        if isinstance(v, tuple) and v[0] == 'alloc':
-                            raise Undecided('allocation passed directly to a helper')
-                        img.bind[p_['id']] = v
-                    walk(tu.body(callee), stack)
-                finally:
-                    img.depth -= 1
-                    img.bind = saved
+                inline_helper(n, stack)
                 return
             walk_kids(n, stack)
+
+        def inline_helper(n, stack):
+            """walk the body of a helper of the utility namespace with its parameters bound; value of its return"""
+            callee = tu.callee_fn(n)
+            if img.depth > 3:
+                raise Undecided('helper nesting too deep')
+            saved = dict(img.bind)
+            img.depth += 1
+            try:
+                for p_, a in zip(callee.get('params', []), tu.call_parts(n)[2]):
+                    v = img.ptr_value(a)
+                    if v is None:
+                        v = img.ev().ev(a)
+                    if v is None:
+                        raise Undecided('argument `%s` of helper %s has no normal form' % (tu.show(a), callee['q']))
+                    if isinstance(v, tuple) and v[0] == 'alloc':
+                        raise Undecided('allocation passed directly to a helper')
+                    img.bind[p_['id']] = v
+                walk(tu.body(callee), stack)
+                rets = [r for r in tu.walk(tu.body(callee)) if r.get('kind') == 'ReturnStmt' and tu.kids(r)]
+                if len(rets) == 1:
+                    rv = img.ptr_value(tu.kids(rets[0])[0])
+                    return rv if rv is not None else img.ev().ev(tu.kids(rets[0])[0])
+                return None
+            finally:
+                img.depth -= 1
+                img.bind = saved
 
         def walk_kids(n, stack):
             for c in n.get('inner', ()):
@@ -655,6 +674,40 @@ def check_write_image(ctx, tu, f):
             total = total.subst(atom, va_ * co[0].const_value())
         return total
 
+    # ---- rows written straight from the source image (all components of every pixel are stored, in order)
+    direct = [(fw_, st_) for fw_, st_ in fwrites if (img.ptr_value(tu.call_parts(fw_)[2][0]) or (None, None))[1] in pix_param]
+    if direct and not [r for r in reads if r[0][0] == 'ptr' and r[0][1] in pix_param] and len(fwrites) == 1:
+        fw_, fstack = direct[0]
+        a_ = tu.call_parts(fw_)[2]
+        fp = img.ptr_value(a_[0])
+        e1, e2 = img.ev().ev(a_[1]), img.ev().ev(a_[2])
+        unit = fp[3]
+        per_pixel = psz // unit if unit and psz % unit == 0 else None
+        if e1 is None or e2 is None or per_pixel is None:
+            ctx.undecided(R, inst, 'fwrite from the pixel array: arguments have no normal form', tu.loc(fw_))
+            return
+        if len(fstack) != 1 or loops[fstack[0]].get('step', 1) != 1 or loops[fstack[0]]['count'] != sy:
+            ctx.undecided(R, inst, 'fwrite from the pixel array is not executed once per row y in [0, sizeY)', tu.loc(fw_))
+            return
+        ya = ('sym', loops[fstack[0]]['name'])
+        if N != P or csz * per_pixel != psz or per_pixel != P:
+            ctx.violation(R, inst, 'the row is written straight from the pixel array although only %d of the %d components of a pixel '
+                          'belong in the file' % (N, per_pixel), tu.loc(fw_), key=keyb + 'pass-through-components')
+            return
+        if e1 * e2 != sx * psz:
+            ctx.violation(R, inst, 'fwrite emits `%s` bytes per row; a row of sizeX pixels has %s' % (show(e1 * e2), show(sx * psz)),
+                          tu.loc(fw_), key=keyb + 'row-bytes')
+            return
+        want = (sy - 1 - Poly.atom(ya)) if flip else Poly.atom(ya)
+        other = Poly.atom(ya) if flip else (sy - 1 - Poly.atom(ya))
+        if fp[2] == want * sx * per_pixel:
+            ctx.ok(R, inst, 'rows written straight from pixel[(%s)*sizeX], %s bytes each (N_COMP == PIXEL_COMP)'
+                   % ('sizeY-1-y' if flip else 'y', show(sx * psz)), tu.fn_loc(f))
+        elif fp[2] == other * sx * per_pixel:
+            ctx.violation(R, inst, 'row selector is `%s` although FLIP is %s' % (show(other), targs[4]), tu.loc(fw_), key=keyb + 'flip')
+        else:
+            ctx.undecided(R, inst, 'fwrite from the pixel array starts at component `%s`, not at the start of row y' % show(fp[2]), tu.loc(fw_))
+        return
     # ---- reads of the pixel array
     src_reads = [r for r in reads if r[0][0] == 'ptr' and r[0][1] in pix_param]
     if not src_reads:
@@ -1342,6 +1395,7 @@ class JsonFlow:
         self.found = {}          # detail -> (msg, node, fn, path)
         self.undec = {}
         self.memo = {}
+        self.alias = set()       # ids of reference members (of writer helper objects) bound to the log stream
         self.ops = set()
 
     # ---- classification
@@ -1357,7 +1411,7 @@ class JsonFlow:
                 callee = tu.callee_fn(e)
                 if callee is None or tu.cfg(callee) is None:
                     return None
-                rets = [tu.ref_decl(tu.kids(r)[0]) for b, i, r in tu.cfg(callee).stmts() if r.get('kind') == 'ReturnStmt' and tu.kids(r)]
+                rets = [self.decl_of(tu.kids(r)[0]) for b, i, r in tu.cfg(callee).stmts() if r.get('kind') == 'ReturnStmt' and tu.kids(r)]
                 if not rets or len(set(rets)) != 1 or rets[0] is None:
                     return None
                 pidx = [i for i, p_ in enumerate(callee.get('params', [])) if p_['id'] == rets[0]]
@@ -1368,9 +1422,22 @@ class JsonFlow:
                     continue
                 return rets[0]          # a captured variable: the lambda body names the enclosing function's stream
             e = tu.strip(obj if obj is not None else args[0])
-        if e is not None and e.get('kind') == 'DeclRefExpr':
-            return e.get('referencedDecl', {}).get('id')
+        return self.decl_of(e) if e is not None else None
+
+    def decl_of(self, e):
+        """declaration a variable / member-of-this expression names"""
+        tu = self.tu
+        x = tu.strip(e, casts=True)
+        if x is None:
+            return None
+        if x.get('kind') == 'DeclRefExpr':
+            return x.get('referencedDecl', {}).get('id')
+        if x.get('kind') == 'MemberExpr' and tu.kids(x) and tu.is_this(tu.kids(x)[0]):
+            return x.get('referencedMemberDecl')
         return None
+
+    def is_log(self, did, stream_id):
+        return did is not None and (did == stream_id or did in self.alias)
 
     def operand(self, n):
         tu = self.tu
@@ -1543,7 +1610,7 @@ class JsonFlow:
             return [st]
         if k == 'BinaryOperator' and n.get('opcode') == '=':
             l, r = tu.kids(n)
-            did = tu.ref_decl(l)
+            did = self.decl_of(l)
             if did is not None and dict(st[6]).get(did) is not None or (did is not None and tu.sd(tu.strip(l)).get('ct') == 'bool'):
                 rs = tu.strip(r)
                 cv = tu.sd(rs).get('cv')
@@ -1567,7 +1634,7 @@ class JsonFlow:
             if obj is not None and ('ne:' + tu.show(obj)) in dict(st[6]):
                 st = self.set_flag(st, 'ne:' + tu.show(obj), None)
         if k in ('CXXOperatorCallExpr', 'CXXMemberCallExpr') and tu.sd(n).get('q', '').split('::')[-1] == 'operator<<':
-            if self.stream_root(n) != stream_id:
+            if not self.is_log(self.stream_root(n), stream_id):
                 return [st]
             self.ops.add(n['id'])
             opnd = self.operand(n)
@@ -1602,10 +1669,44 @@ class JsonFlow:
                     self.report(f, 'skeleton', 'run-time text `%s` is emitted outside a JSON string' % tu.show(opnd), n, at, pred)
                     return [BAD]
                 return r
-        if k in ('CallExpr', 'CXXMemberCallExpr') and tu.sd(n).get('q', '').split('::')[-1] != 'operator<<':
+        if k in ('CallExpr', 'CXXMemberCallExpr', 'CXXConstructExpr') and tu.sd(n).get('q', '').split('::')[-1] != 'operator<<':
             sd0, obj0, args0 = tu.call_parts(n)
-            pos = [i for i, a in enumerate(args0) if tu.ref_decl(tu.strip(a, casts=True)) == stream_id]
-            if pos:
+            pos = [i for i, a in enumerate(args0) if self.is_log(self.decl_of(a), stream_id)]
+            callee0 = tu.callee_fn(n)
+            if pos and k == 'CXXConstructExpr' and callee0 is not None and tu.cfg(callee0) is not None and \
+                    not tu.sd(n).get('q', '').startswith('std::') and pos[0] < len(callee0.get('params', [])):
+                # an object that keeps a reference / pointer to the log stream: its member names the stream from now on
+                prm = callee0['params'][pos[0]]['id']
+                for b_ in tu.cfg(callee0).blocks.values():
+                    for e_ in b_.el:
+                        if e_[0] != 'I' or e_[2] is None:
+                            continue
+                        init_ = tu.node(e_[1])
+                        if init_ is None:
+                            continue
+                        if init_.get('kind') == 'CXXDefaultInitExpr':
+                            fd_ = tu.node(e_[2])
+                            lit = [y for y in tu.walk(fd_) if y.get('kind') == 'CXXBoolLiteralExpr'] if fd_ else []
+                            if lit and fd_.get('type', {}).get('qualType') == 'bool':
+                                st = self.set_flag(st, e_[2], 1 if lit[0].get('value') else 0)
+                        elif any(y.get('kind') == 'DeclRefExpr' and y.get('referencedDecl', {}).get('id') == prm for y in tu.walk(init_)):
+                            self.alias.add(e_[2])
+                        elif tu.node(e_[2]) is not None and tu.node(e_[2]).get('type', {}).get('qualType') == 'bool':
+                            lit = [y for y in tu.walk(init_) if y.get('kind') == 'CXXBoolLiteralExpr']
+                            st = self.set_flag(st, e_[2], (1 if lit[0].get('value') else 0) if lit else None)
+                outs = self.run_fn(callee0, prm, st, depth + 1)
+                if BAD in outs:
+                    self.report(f, 'helper', 'the constructor %s called here breaks the JSON skeleton' % callee0['q'], n, at, pred)
+                return list(outs) or [st]
+            if not pos and k == 'CXXMemberCallExpr' and callee0 is not None and tu.cfg(callee0) is not None and self.alias and \
+                    depth < 4 and any(y.get('referencedMemberDecl') in self.alias for y in tu.walk(tu.body(callee0))
+                                      if y.get('kind') == 'MemberExpr'):
+                # a member function of such an object writes to (or hands out) the log stream
+                outs = self.run_fn(callee0, stream_id, st, depth + 1)
+                if BAD in outs:
+                    self.report(f, 'helper', 'the member function %s called here breaks the JSON skeleton' % callee0['q'], n, at, pred)
+                return list(outs) or [st]
+            if pos and k != 'CXXConstructExpr':
                 callee = tu.callee_fn(n)
                 if callee is None or tu.cfg(callee) is None or depth >= 4 or pos[0] >= len(callee.get('params', [])):
                     self.undec.setdefault('the stream is handed to `%s`, whose body is not available' % tu.show(n), n)
@@ -1705,7 +1806,13 @@ class JsonFlow:
                     if known is not None:
                         return [st] if (known == 1) == ne_edge else []
                     return [self.set_flag(st, key, 1 if ne_edge else 0)]
-        ev = Evaluator(tu, var, None, call)
+        def member(n_):
+            did_ = n_.get('referencedMemberDecl') if tu.kids(n_) and tu.is_this(tu.kids(n_)[0]) else None
+            if did_ in flags and isinstance(flags[did_], int):
+                return Poly.const(flags[did_])
+            return None
+
+        ev = Evaluator(tu, var, member, call)
         rel = ev.rel(c)
         if rel is None:
             return [st]
